@@ -97,7 +97,33 @@ func VerifUnifiedHistory() {
 			}
 		}
 		staleFallback := dropped && listers == 0
-		got, dec, _ := r.GetRoutableEndpointsForModel(ctx, m, healthy)
+		// the client may name the model by its native name, by the unified id or by an alias
+		asked := m
+		if by := gosym.Choice("requested_by", 3); by > 0 && gosym.Param("ALIAS") == 1 {
+			ums, _ := r.GetUnifiedModels(ctx)
+			for _, u := range ums {
+				mine := false
+				for _, s := range u.SourceEndpoints {
+					if s.NativeName == m {
+						mine = true
+					}
+				}
+				if !mine {
+					continue
+				}
+				if by == 1 {
+					asked = u.ID
+				} else {
+					for _, al := range u.Aliases {
+						if al.Name != m && al.Name != u.ID {
+							asked = al.Name
+						}
+					}
+				}
+			}
+			gosym.Observe("asked", asked)
+		}
+		got, dec, _ := r.GetRoutableEndpointsForModel(ctx, asked, healthy)
 		for _, g := range got {
 			isHealthy := false
 			for _, h := range healthy {
